@@ -472,3 +472,37 @@ Qed.
 (* ---------- bit tests used by exp and inv ---------- *)
 Lemma land_1_mod2 x : Z.land x 1 = x mod 2.
 Proof. change 1 with (Z.ones 1) at 1. rewrite Z.land_ones by lia. reflexivity. Qed.
+
+(* ---------- further exported forms ---------- *)
+Lemma fn_mul_spec_mod a b : 0 <= a -> 0 <= b -> a * b < 2^64 * M62 ->
+  repr62 (f62_fn_mul a b) /\ (f62_fn_mul a b * 2^64) mod M62 = (a * b) mod M62 /\
+  val62 (f62_fn_mul a b) = (val62 a * val62 b) mod M62 /\ f62_fn_mul_ok a b = true.
+Proof.
+  intros Ha Hb Hab. destruct (fn_mul_spec a b Ha Hb Hab) as [Hr Hc].
+  split; [exact Hr|]. split; [apply eqM62_iff in Hc; exact Hc|].
+  split; [apply fn_mul_val; assumption|apply fn_mul_ok_gen; assumption].
+Qed.
+
+(* canonical serialization identifies exactly the equal residues *)
+Theorem f62_as_int_inj a b : repr62 a -> repr62 b ->
+  (f62_as_int a = f62_as_int b <-> val62 a = val62 b).
+Proof. intros Ha Hb. rewrite !f62_as_int_spec by assumption. reflexivity. Qed.
+
+Theorem f62_try_from_u64_spec v : 0 <= v < 2^64 ->
+  match f62_try_from_u64 v with
+  | None => M62 <= v
+  | Some e => v < M62 /\ repr62 e /\ val62 e = v
+  end /\ f62_try_from_u64_ok v = true.
+Proof.
+  intros Hv. unfold f62_try_from_u64, f62_try_from_u64_ok. rewrite M62_eq.
+  destruct (Z.geb_spec v M62) as [H|H]; [split; [exact H|reflexivity]|].
+  destruct (f62_new_spec v Hv) as [Hr Hval].
+  split; [|apply f62_new_ok_spec; exact Hv].
+  split; [exact H|]. split; [exact Hr|]. rewrite Hval. apply Z.mod_small; lia.
+Qed.
+
+(* non-vacuity of the hypotheses used above *)
+Example repr62_nonempty : repr62 0 /\ repr62 M62 /\ repr62 (2 * M62 - 1) /\ ~ repr62 (2 * M62).
+Proof. unfold repr62, M62. repeat split; lia. Qed.
+Example val62_two_words : val62 1 = val62 (M62 + 1) /\ 1 <> M62 + 1 /\ f62_eq 1 (M62 + 1) = true.
+Proof. split; [vm_compute; reflexivity|]. split; [discriminate|vm_compute; reflexivity]. Qed.
